@@ -550,6 +550,61 @@ def iterator_fixup_rule(rep):
     rep.floor("C14.i", n, 4)
 
 
+def removed_ancestor_rule(rep):
+    rep.rule("C14.j", "a Range whose boundary container lies inside a removed subtree is moved out of it (DOM Range 2.12.2): in "
+             "DOMRangeImpl::updateRangeForDeletedNode, for a live node that is not the one the range itself is removing and is not a "
+             "child of the boundary container, every normal path consults isAncestorOf(node, <that container>) — for the start and "
+             "for the end container separately; a path that returns without asking leaves the boundary point inside the detached "
+             "subtree (container no longer in the tree)")
+    q = "DOMRangeImpl::updateRangeForDeletedNode"
+    g = core.run_xa([os.path.join(core.REPO, "src/xercesc/dom/impl/DOMRangeImpl.cpp")], cfg="^" + q + "$", flat=False)
+    cfg = guard.Cfg(g.cfg(q))
+
+    def strip(x):
+        while isinstance(x, list) and x and x[0] == "cast":
+            x = x[2]
+        return x
+
+    def is_parent_of_node(x):
+        x = strip(x)
+        return isinstance(x, list) and x[:1] == ["c"] and isinstance(x[1], str) and x[1].endswith("::getParentNode") and strip(x[2])[:1] == ["p"]
+
+    def is_field(x, name):
+        x = strip(x)
+        return isinstance(x, list) and x[:1] == ["f"] and x[1].endswith("::" + name)
+    n = 0
+    for cont in ("fStartContainer", "fEndContainer"):
+        def assume(x, cont=cont):
+            x = strip(x)
+            if isinstance(x, list) and len(x) == 4 and x[0] == "b" and x[1] in ("==", "!="):
+                a, b = strip(x[2]), strip(x[3])
+                for u, v in ((a, b), (b, a)):
+                    if u[:1] == ["p"] and v == ["i", 0]:
+                        return x[1] == "!="                                   # the removed node exists
+                    if is_field(u, "fRemoveChild") and v[:1] == ["p"]:
+                        return x[1] == "!="                                   # not the range's own removal
+                    if is_parent_of_node(u) and is_field(v, cont):
+                        return x[1] == "!="                                   # not a child of this boundary container
+            return None
+
+        def consults(bid, cont=cont):
+            for el in cfg.blocks[bid]["els"]:
+                for c in guard.el_top_calls(el):
+                    if isinstance(c[1], str) and c[1].endswith("::isAncestorOf") and len(c[3]) == 2 and is_field(c[3][1], cont):
+                        return True
+            return False
+        if not any(consults(b) for b in cfg.blocks):
+            raise AnalysisBroken("%s no longer asks isAncestorOf(node, %s)" % (q, cont))
+        seen = guard.reachable(cfg, assume=assume, stop=lambda b: consults(b) or cfg.throws(b))
+        ok = cfg.exit not in seen
+        n += 1
+        rep.ob("C14.j", "updateRangeForDeletedNode/%s" % cont, ok, "ancestor relation consulted on every path" if ok else
+               "%s can return for a node that is not a child of %s without asking whether the node is an ancestor of it: a range "
+               "whose %s boundary lies inside the removed subtree is not moved out" % (q, cont, "start" if "Start" in cont else "end"),
+               "%s:%s" % (cfg.file, min([el["l"] for _b, _i, el in cfg.elements() if el.get("l")] or [0])))
+    rep.floor("C14.j", n, 2)
+
+
 def run(rep):
     f = core.library_facts()
     rep.units.update(os.path.relpath(t, core.REPO) for t in f.tus)
@@ -562,6 +617,7 @@ def run(rep):
     delete_data_rule(rep)
     boundary_compare_rule(rep)
     iterator_fixup_rule(rep)
+    removed_ancestor_rule(rep)
     diag.run(rep, f, "C14")
     from ..engines import dispatch
     dispatch.run(rep, f, "C14")
